@@ -42,7 +42,8 @@ fn check_op(rep: &mut Report, id: &str, s: &Slot, rng: &mut crate::rng::Rng, tag
     let data = gen::gen(rng, n * bs, cl);
     let shape = if n == 1 { [Shape::Block, Shape::BlockB2b, Shape::BlockInout][rng.below(3)] } else { [Shape::Blocks, Shape::BlocksB2b, Shape::BlocksInout][rng.below(3)] };
     let mut got = data.clone();
-    if shape.needs_input() {
+    if shape.needs_input() || rng.below(2) == 0 {
+        got.iter_mut().for_each(|b| *b = 0x99);
         s.inst.run(encrypt, shape, Some(&data), &mut got);
     } else {
         s.inst.run(encrypt, shape, None, &mut got);
@@ -84,7 +85,7 @@ pub fn run_history(ctx: &Ctx) -> Report {
         return rep;
     }
     let mut rng = ctx.rng("history");
-    let nhist = ctx.budget(30, 600, 1);
+    let nhist = ctx.budget(120, 1200, 1);
     let mut lens_hist: Vec<i64> = Vec::new();
     for h in 0..nhist {
         let len = if h % 10 == 0 { 3000 } else { 200 + rng.below(800) };
